@@ -75,6 +75,7 @@ type world struct {
 	inbox     []J                   // messages from the Conn the reflecting peer has not handled yet
 	nextPeerQ int                   // next question id the reflecting peer uses
 	reflected map[int]int           // peer question id (reflected call) -> the Conn's question id it came from
+	queueSize int                   // server.Policy.AnswerQueueSize of the capabilities of this script (script action "policy")
 	paramExp  map[int]int           // call tag -> export id the Conn assigned to the capability in the call's parameters
 	reflect   bool                  // the script is an embargo scenario: the peer keeps an inbox and reflects
 	onCancel  map[int]string        // what a cancelled method body does (default: gives up with an error)
@@ -617,7 +618,7 @@ func (w *world) newCap(name string) *capnp.Client {
 			return fmt.Errorf("verif-app-error-%d", tag)
 		}
 	}
-	srv := server.New([]server.Method{{Method: meth, Impl: impl}}, nil, shutLogger{w, name}, &server.Policy{MaxConcurrentCalls: 16, AnswerQueueSize: 16})
+	srv := server.New([]server.Method{{Method: meth, Impl: impl}}, nil, shutLogger{w, name}, &server.Policy{MaxConcurrentCalls: 16, AnswerQueueSize: w.queueSize})
 	return capnp.NewClient(srv)
 }
 
@@ -695,7 +696,7 @@ func (w *world) waitStarted(tag int) bool {
 func runScript(id string, script []action) (trace []J, hang string) {
 	w := &world{toConn: make(chan *capnp.Message, 64), returns: map[int]J{}, qkind: map[int]string{},
 		cmds: map[int]chan string{}, started: map[int]chan struct{}{}, handles: map[string]*capnp.Client{}, tagCap: map[int]int{}, sentQ: map[int]bool{}, finQ: map[int]bool{}, lastEvent: time.Now(),
-		answers: map[int]*capnp.Answer{}, nextPeerQ: 20, reflected: map[int]int{}, recvTag: map[int]bool{}, onCancel: map[int]string{}, paramExp: map[int]int{}}
+		answers: map[int]*capnp.Answer{}, nextPeerQ: 20, reflected: map[int]int{}, recvTag: map[int]bool{}, onCancel: map[int]string{}, paramExp: map[int]int{}, queueSize: 16}
 	w.log(J{"ev": "reset", "h": id})
 	for _, a := range script {
 		if a.A == "fault" {
@@ -703,6 +704,9 @@ func runScript(id string, script []action) (trace []J, hang string) {
 		}
 		if a.A == "p-pump" || a.A == "l-pcall" || a.Kind == "loopcap" || a.Kind == "ok-argcap" {
 			w.reflect = true
+		}
+		if a.A == "policy" {
+			w.queueSize = a.K
 		}
 	}
 	conn := rpc.NewConn(&transport{w}, &rpc.Options{BootstrapClient: w.newCap("B"), AbortTimeout: 50 * time.Millisecond, ErrorReporter: reporter{w}})
@@ -1106,6 +1110,8 @@ func (w *world) step(a action, closed *bool) {
 		w.deliver(msg, J{"m": "release", "e": exp, "n": a.K})
 	case "p-pump":
 		w.pump(a)
+	case "policy":
+		// applied before the Conn was created
 	case "a-oncancel":
 		w.mu.Lock()
 		w.onCancel[a.Tag] = a.Kind
